@@ -18,7 +18,7 @@ CHECKS = {
                 note="Bounded: one 3-atom source (and its 2-conformer ensemble), one mutation after the copy; pickle and deepcopy are exercised with selectors only. Shallow copy.copy is outside the property.",
                 design="3/C06"),
     "C14": dict(engine="XH+SHP", technique="CrossHair symbolic execution of the real ConformerEnsemble/Conformer code on a shape-level numpy model with symbolic extents (n_conformers up to 1000), plus real-numpy content scenarios; z3 decides each path",
-                text="One inductive step from an arbitrary rectangular state: for every constructor branch, each of 14 operations, all n_conformers in [0,1000] (symbolic, linear integer arithmetic over array extents), n_atoms 0..3 and every conformer index, the three parallel arrays keep matching extents and every conformer view reads coordinates and charges. On real numpy (extents <= 3): writes through a conformer change row i only, iteration (nested, interleaved, suspended) visits each conformer once in order, grown ensembles dump and serialise.",
+                text="One inductive step from an arbitrary rectangular state: for every constructor branch, each of 17 operations, all n_conformers in [0,1000] (symbolic, linear integer arithmetic over array extents), n_atoms 0..3 and every conformer index, the three parallel arrays keep matching extents and every conformer view reads coordinates and charges. On real numpy (extents <= 3): writes through a conformer change row i only, iteration (nested, interleaved, suspended) visits each conformer once in order, grown ensembles dump and serialise.",
                 note="The shape model (engine/shapenp.py) is validated against numpy on ~10k concrete shape cases per run; array *content* is only checked at concrete small extents; a symbolic conformer index bypasses __getitem__'s match statement (CrossHair artefact) and constructs the Conformer directly.",
                 design="3/C14"),
     "C02": dict(engine="XH", technique="CrossHair symbolic execution (z3 per path) of UKVFile/Collection on pure-Python file/struct/dict models, symbolic bytes, buffer size, stale-prefix and operation selectors",
